@@ -14,7 +14,7 @@ ID = "C07"
 LEVEL = "exploration"
 RULE = (
     "case = (request helper or send_message, integer error code, error shape: message text or absent, data absent or any JSON, delivered as the unified or the typed error class, "
-    "alone or with a concurrent request on the same connection that dequeues the error first; send_message also with an untriggered cancellation token and/or a progress callback); "
+    "alone or with a concurrent request on the same connection that dequeues the error first; send_message also with an untriggered cancellation token and/or a progress callback; arriving inside a poll window or exactly on a poll boundary at 4 intra-instant positions; data also drawn from a vocabulary of hint-like keys (retryable, permanent, ...)); "
     "codes enumerated exhaustively over -33100..-31900 and -200..200 for every discovered helper, plus Hypothesis-drawn signed/unsigned "
     "64-bit codes and error shapes; oracle = pinned documented permanent-code set; non-trivial = code is not one of the named constants, "
     "or data present, or message absent; distinct = distinct (helper, code, shape)"
@@ -107,7 +107,10 @@ def check(case: Dict[str, Any]) -> Outcome:
             finally:
                 t_.cancel()
 
-    t_err = 0.52 if peer else 0.1
+    # when the error arrives: well inside a poll window, or exactly on a poll boundary (0.5 / 1.0 s) at a chosen
+    # position among the events of that instant (see drive: before / after the timers the call armed)
+    t_err = 0.52 if peer else case.get("t_err", 10) / 100.0
+    phase = 0 if peer else case.get("phase", 0)
     if msg is None:
         # direct construction (the parser rejects an error without message): the code's own fallback path
         item: Any = {"$direct": err, "id": "$ID"}
@@ -115,7 +118,7 @@ def check(case: Dict[str, Any]) -> Outcome:
         item = {"jsonrpc": "2.0", "id": "$ID", "error": err}
         if case.get("typed"):
             item["$form"] = "typed"
-    res = drive(call, [(t_err, item)])
+    res = drive(call, [(t_err, item, phase)])
 
     out.nontrivial = (code not in NAMED) or has_data or msg is None
     out.key = {"target": target, "code": code, "message": msg, "data": case.get("data", "$absent")}
@@ -125,7 +128,7 @@ def check(case: Dict[str, Any]) -> Outcome:
         "data" if has_data else "nodata",
         "nomessage" if msg is None else "message",
         "bool-helper" if target in BOOL_HELPERS else "raising-helper",
-    ) + (("typed-class",) if case.get("typed") and msg is not None else ()) + (("peer-waiter",) if peer else ()) + tuple("opt:" + o for o in opts if target == "send_message")
+    ) + (("on-poll-boundary",) if not peer and case.get("t_err", 10) in (50, 100) else ()) + (("typed-class",) if case.get("typed") and msg is not None else ()) + (("peer-waiter",) if peer else ()) + tuple("opt:" + o for o in opts if target == "send_message")
 
     r = is_retryable_error(code)
     if not isinstance(r, bool):
@@ -159,7 +162,7 @@ def check(case: Dict[str, Any]) -> Outcome:
         out.fail("wrong-error-class", f"{target} code={code}: raised {type(exc).__name__}, documented {want_cls.__name__}")
     if msg is not None and msg not in str(exc):
         out.fail("server-message-lost", f"{target} code={code}: message {msg!r} not in {str(exc)!r}")
-    if not peer and abs(res.t_end - 0.1) > 1e-6:
+    if not peer and abs(res.t_end - t_err) > 1e-6:
         out.fail("error-not-raised-on-arrival", f"t_end={res.t_end}")
     return out
 
@@ -202,6 +205,13 @@ def job_enum(col: Collector, seed: int, tier: str, shard: int, nshards: int) -> 
             for sh in shapes:
                 case = {"target": target, "code": code, **sh}
                 col.record(case, check(case))
+            if code in NAMED:
+                for hint in ({"retryable": True}, {"retryable": False}, {"permanent": True}, {"transient": True}):
+                    case = {"target": target, "code": code, "message": f"m{code}", "data": hint}
+                    col.record(case, check(case))
+                for t_, ph_ in ((50, -4), (50, -2), (100, -2), (50, 0)):
+                    case = {"target": target, "code": code, "message": f"m{code}", "t_err": t_, "phase": ph_}
+                    col.record(case, check(case))
             if code in NAMED and target == "send_message":
                 for opts_ in (["token"], ["progress"], ["token", "progress"]):
                     case = {"target": target, "code": code, "message": f"m{code}", "opts": opts_}
@@ -217,6 +227,11 @@ def job_enum(col: Collector, seed: int, tier: str, shard: int, nshards: int) -> 
         col.extra["targets"] = targets
 
 
+# error data that *looks* meaningful: hints a server may attach; none of them may change how the code is classified
+_HINT_KEYS = ["retryable", "retry", "retriable", "permanent", "transient", "temporary", "fatal", "recoverable", "retryAfter", "retry_after", "code", "message", "type", "kind", "category", "severity", "status", "httpStatus", "reason", "details", "error"]
+_hint_data = st.dictionaries(st.sampled_from(_HINT_KEYS), st.one_of(st.booleans(), st.integers(-40000, 600), st.sampled_from(["true", "false", "retry", "permanent", "", None])), min_size=1, max_size=3)
+
+
 @st.composite
 def cases(draw):
     target = draw(st.sampled_from(["send_message"] + sorted(helpers())))
@@ -229,7 +244,10 @@ def cases(draw):
     m = draw(st.one_of(st.none(), json_text, st.sampled_from(["Protocol Version mismatch", "unsupported protocol version", "x"])))
     case["message"] = m
     if draw(st.booleans()):
-        case["data"] = draw(json_values(6))
+        case["data"] = draw(st.one_of(json_values(6), _hint_data))
+    if draw(st.integers(0, 3)) == 0:
+        case["t_err"] = draw(st.sampled_from([50, 100, 49, 51]))
+        case["phase"] = draw(st.sampled_from([0, -1, -2, -4]))
     if draw(st.integers(0, 2)) == 0:
         case["typed"] = True
     if draw(st.integers(0, 3)) == 0:
